@@ -246,6 +246,21 @@ def build_tu(vu, work, canary=None):
                     e.rewrites.append("R3 range-for -> index loop x%d" % k)
                 if kind in ("extract", "whole", "block"):
                     rule_r7(e, typedef_table(hdr))
+                if "mono" in kv:
+                    # R4: //@extract f.I fn mono=Element=int|A::B  -> one non-template overload per type
+                    par, types = kv["mono"].split("=", 1)
+                    body = re.sub(r'template\s*<\s*class\s+' + par + r'\s*>\s*', '', e.text, count=1)
+                    if body == e.text:
+                        raise X.ExtractionError("R4: %s is not a template over %s" % (e.qualname, par))
+                    copies = []
+                    for ty in types.split("|"):
+                        c = re.sub(r'\btypename\s+', '', body)
+                        c, k = re.subn(r'\b' + par + r'\b', ty, c)
+                        if k == 0:
+                            raise X.ExtractionError("R4 did not fire on %s" % e.qualname)
+                        copies.append(c)
+                    e.text = "\n".join(copies)
+                    e.rewrites.append("R4 monomorphised over %s = %s" % (par, types))
                 for key in sorted(kv):
                     if key.startswith("subst"):
                         sep = kv[key][0]
@@ -641,6 +656,12 @@ def main():
                 mode = er["mode"]
                 obl = er["results"]
                 fails = [x for x in obl if x.get("status") == "FAILURE"]
+                unw = [x for x in fails if "unwinding assertion" in obligation_name(x) or ".unwind." in str(x.get("property"))]
+                if unw:
+                    # a loop ran past the stated bound: the bounded stand-in does not decide this entry
+                    fails = [x for x in fails if x not in unw]
+                    undecided.append((vu["name"], {"reason": "unwind-bound-exceeded", "entry": er["entry"],
+                                                   "detail": "%d unwinding assertions failed (bound %s)" % (len(unw), er["bounds"])}))
                 oks = [x for x in obl if x.get("status") == "SUCCESS"]
                 other = [x for x in obl if x.get("status") not in ("FAILURE", "SUCCESS")]
                 if other:
